@@ -42,3 +42,29 @@ def differs(lhs, rhs, subs: dict, rel: float = 1e-12, prec: int = 40) -> dict:
     diff = abs(lv - rv)
     scale = 1 + abs(lv) + abs(rv)
     return {"reproduced": bool(diff > rel * scale), "lhs": str(sp.N(lv, 15)), "rhs": str(sp.N(rv, 15)), "absdiff": str(sp.N(diff, 5))}
+
+
+def concrete_uf(ctx, asg: dict, subs: dict, name: str):
+    """A concrete function consistent with the solver model of the (Ackermannised)
+    uninterpreted function `name`: Lagrange interpolation in the first argument through the
+    model's values (first arguments of distinct applications must differ)."""
+    pts = {}
+    for var, e in getattr(ctx, "uf_exprs", {}).items():
+        fname = e.func.__name__ if hasattr(e.func, "__name__") else str(e.func)
+        if fname != name or var not in asg:
+            continue
+        x0 = sp.nsimplify(sp.sympify(e.args[0]).xreplace(subs))
+        pts[x0] = rat(asg[var])
+    xs = list(pts)
+
+    def f(x, *rest):
+        total = sp.Integer(0)
+        for k, xk in enumerate(xs):
+            term = pts[xk]
+            for j, xj in enumerate(xs):
+                if j != k:
+                    term = term * (x - xj) / (xk - xj)
+            total += term
+        return total if xs else sp.Integer(1)
+
+    return f
